@@ -204,6 +204,27 @@ def run(ctx):
                     lb = None
                 if lb is not None and lb.hash() not in cs_.block_by_hash:
                     node.CLOCK[0] = max(node.CLOCK[0], lb.timestamp + 5)
+                    if rng.random() < 0.5:
+                        # first another connection delivers a spliced copy: the genuine header (hence the genuine id) in front
+                        # of a transaction list that is not the block's — refused; the genuine block must still be accepted
+                        from skepticoin.datatypes import Block as _Block
+                        other_cb = ledger.coinbase(lb.height, chain.subsidy(lb.height), keys.pk((rng.randrange(0, 5))), data=b"spliced")
+                        spliced = _Block(lb.header, [other_cb] + list(lb.transactions[1:]))
+                        c2 = rn.add_peer(active=True)
+                        ops.append("node peer 1 0")
+                        impl.append("ok")
+                        sf = fr(DataMessage(DATA_BLOCK, spliced), rng)
+                        before_state = chain.state_digest(rn.cm.coinstate, full=False)
+                        try:
+                            rn.deliver_bytes(c2, sf)
+                        except BaseException as e:
+                            res.violations.append({"kind": "an exception escaped the event handler: %r" % e, "scenario": si})
+                        ops.append("node bytes %d %s %d" % (c2, hx(sf), node.CLOCK[0]))
+                        impl.append("ok")
+                        if chain.state_digest(rn.cm.coinstate, full=False) != before_state:
+                            res.violations.append({"kind": "malformed input changed the chain state", "scenario": si,
+                                                   "stream": "spliced block", "bytes": sf.hex()[:4000]})
+                        res.count("spliced_copy_delivered_first")
                     rr = rn.deliver_block(good, lb, 0)
                     ops.append("node block %d 0 %s %d" % (good, hx(lb.serialize()), node.CLOCK[0]))
                     impl.append(rr)
